@@ -168,6 +168,25 @@ def r_balance_t(rep, prog):
         rep.check((ok and fed_by_update) or direct, rule, "%s|returns-old-counter" % fn,
                   "returns free() of the value try_update replaced (the old counter)",
                   "%s does not return the old counter of the updated entry" % fn, b.span)
+    # Locals::put reports success only if the counter update was applied
+    b = lib.need_body(prog, "llfree::local::Locals::put")
+    tm = T.Terms(b, prog)
+    rets = []
+    for bi, si, rv in lib.assignments_to_return(b):
+        rets += T.alternatives(tm, tm.call_term(bi) if si == "term" else tm.rvalue(rv))
+    good = bool(rets)
+    for r in rets:
+        r = T.strip_casts(r)
+        if T.const_val(r) == 0:
+            continue
+        if r[0] == "call" and r[1] == "core::result::Result::is_ok" and T.mentions_call(r, "llfree::atomic::Atom::try_update") and any(
+                x[0] == "agg" and x[1].startswith("closure:llfree::local::Locals::put") for x in T.walk(r)):
+            continue
+        good = False
+    clos_ok = any(list(cb.calls_to(LT + "put")) for cb in prog.crate("llfree").closures_of("llfree::local::Locals::put"))
+    rep.check(good and clos_ok, rule, "Locals::put|reports-update", "true iff try_update(LocalTree::put) was applied",
+              "Locals::put can report success without having added the frames to a reservation counter (%s): the caller then skips "
+              "the tree counter and the frames are lost" % [T.show(r)[:60] for r in rets], b.span)
     # Locals::swap installs `free`, returns the old reservation; as_reservation reads free()
     b = lib.need_body(prog, "llfree::local::Locals::swap")
     tm = T.Terms(b, prog)
